@@ -11,7 +11,7 @@ mkdir -p selftest; OUT=selftest/determinism.txt; T=$(mktemp -d /tmp/upfsim-det.X
 : > $OUT.new
 bad=0
 for P in C01 C02 C03 C04 C05 C06 C07 C08 C09 C10 C11 C12 C13 C14 C15 C16 C19; do
-  bins="upfsim"; case $P in C06|C07|C11) bins="upfsim upfsim-race";; esac
+  bins="upfsim"; case $P in C06|C07|C10|C11) bins="upfsim upfsim-race";; esac
   for B in $bins; do
     for G in 1 4 16; do
       ( seq 0 $((N-1)) | xargs -P 16 -I{} sh -c "GOMAXPROCS=$G GORACE='halt_on_error=0 exitcode=0 log_path=$T/race' $D/$B worker -prop $P -seed 7 -from {} -to \$(( {} + 1 )) 2>/dev/null" | jq -c '[.i,.loghash,.swh,.steps,.sync,([.viol[]?.sig]|sort)]' | sort > $T/$P-$B-$G.txt ) || exit 2
